@@ -18,6 +18,7 @@ THEOREMS = ["C13_inverse", "C13_inverse_graph", "C13_calledby_is_inverse", "C13_
             "C13_call_nodes_sound", "C13_callgraph_limit_partial", "C13_callgraph_limit_refuted",
             "C13_lazy_inverse_refuted", "C13_graph_false_partial", "C13_graph_false_refuted",
             "C13_filegraph_direction_partial", "C13_filegraph_direction_refuted"]
+COUNTS = {"intended_relations": 0, "intended_arrows_checked": 0}
 REGIONS = {1: "graph-false-neighbour", 2: "lazy-inverse", 4: "filegraph-reversed", 8: "callgraph-limit-double-count"}
 
 CORPUS = [
@@ -49,7 +50,7 @@ def relimit(rng, world):
     return d, n
 
 
-def project_case(rng, files, st, nruns, project=None):
+def project_case(rng, files, st, nruns, project=None, intended=None):
     """parse, build the graphs nruns times under different limits; returns (term, info) or raises"""
     st = dict(st)
     show = bool(st.pop("show_proc_parent", False))
@@ -71,6 +72,8 @@ def project_case(rng, files, st, nruns, project=None):
                 assert wk.term() == wterm, "world changed between runs"
             runs.append(recs)
             infos.append(python_checks(p, gm, log, recs, wk))
+            if k == 0 and intended:
+                infos.append(intended_check(intended, recs, wk))
             if k + 1 < nruns:
                 relimit(rng, world)
     labels, lbad = GI.label_table(runs)
@@ -113,11 +116,33 @@ def python_checks(project, gm, log, recs, world):
     return bad
 
 
-def intended_check(proj, runs):
-    """the relation written into the generated source appears in the project-wide graphs (run 0 only;
-    only when nothing was cut and no entity opted out): uses / ancestry in the module graph of the
-    registered modules, extension / composition in the type graph"""
-    return []
+def intended_check(intended, recs, world):
+    """the relation written into the generated source is drawn: for each `use`, submodule parent, type
+    extension and type-valued component of the generated text, the arrow is in the first hop of the
+    source entity's own uses / inherits graph (when that graph exists and its first hop was drawn)"""
+    bad = []
+    byid = {r["ident"]: r for r in recs}
+    COUNTS["intended_relations"] += len(intended)
+    for kind, a, b in sorted(intended):
+        if kind in ("uses", "anc"):
+            gids = [f"module~~{a}~~UsesGraph", f"program~~{a}~~UsesGraph"]
+            tails, heads = {f"module~{a}", f"program~{a}"}, {f"module~{b}", b}
+            dashed = kind == "uses"
+        else:
+            gids = [f"type~~{a}~~InheritsGraph"]
+            tails, heads = {f"type~{a}"}, {f"type~{b}", b}
+            dashed = kind == "comp"
+        for gid in gids:
+            r = byid.get(gid)
+            if r is None or r["hop"]:
+                continue
+            found = any(world.ident[t] in tails and world.ident[h] in heads and d == dashed
+                        for t, h, d, _ in r["edges"])
+            COUNTS["intended_arrows_checked"] += 1
+            if not found:
+                bad.append(f"{gid}: no {'dashed' if dashed else 'solid'} arrow {a} -> {b} for the {kind} "
+                           f"relation written in the source")
+    return bad
 
 
 # ------------------------------------------------------------------ main
@@ -145,13 +170,13 @@ def handle(chk, cases, res):
                                                     "rngstate": meta.get("seed")}, False)
 
 
-def add_case(chk, cases, rng, files, st, nruns, tag):
+def add_case(chk, cases, rng, files, st, nruns, tag, intended=None):
     seed = rng.getrandbits(32)
     import random
     sub = random.Random(seed)
     key = hashlib.sha1(json.dumps([files, st], sort_keys=True, default=str).encode()).hexdigest()[:12]
     try:
-        term, summary, problems, runs = project_case(sub, files, st, nruns)
+        term, summary, problems, runs = project_case(sub, files, st, nruns, intended=intended)
     except Exception as e:  # FORD failed on a valid project: an output, not a harness crash
         chk.count((tag, key), nontrivial=False, sample={"files": sorted(files), "error": repr(e)[:300]})
         chk.violation("failing-input", {"what": "ford raised on a generated project", "error": repr(e)[:2000],
@@ -183,7 +208,7 @@ def run(chk):
     n = 70 if quick else 1500
     for i in range(n):
         proj = GG.gen(rng, {"big": (not quick) and i % 10 == 0})
-        add_case(chk, cases, rng, GG.render(proj), GG.settings(rng), 3 if quick else 4, "gen")
+        add_case(chk, cases, rng, GG.render(proj), GG.settings(rng), 3 if quick else 4, "gen", GG.intended(proj))
     t0 = time.time()
     res = chk.coq_judge(IMPORTS, CASE_T, "judge", [t for t, _ in cases], shard=5 if quick else 8)
     chk.extra["coq_eval_s"] = round(time.time() - t0, 1)
@@ -193,6 +218,7 @@ def run(chk):
         for r in meta.get("regions", []):
             chk.extra["regions_hit"][r] = chk.extra["regions_hit"].get(r, 0) + 1
     end_to_end(chk, rng, 3 if quick else 20)
+    chk.extra.update(COUNTS)
     findings(chk)
 
 
